@@ -1283,7 +1283,8 @@ impl ViCut {
 			return Err(format!("Index {index} out of bounds for array {name}, length is {len}",))
 		}
 		compound.set(index, value);
-		self.set_var(name, compound.into())?;
+		// Write to the variable where it lives: the innermost frame may be a nested block's
+		*var = compound.into();
 		Ok(())
 	}
 	pub fn read_index_var(&mut self, name: String, index: usize) -> Result<Val,String> {
